@@ -92,7 +92,10 @@ def run_case(case):
     open(os.path.join(parent, "sibling", "inner.txt"), "wb").write(b"sentinel2\n")
     open(os.path.join(parent, "cvprobe_n"), "wb").write(b"sentinel3\n")     # a file the walk could reach with one ".."
     slash_before = set(os.listdir("/"))
-    pstr = ("/" if case["abs"] else "") + "/".join({"L": "x" * 300, "n": "cvprobe_n", "..n": "..cvprobe_n", "n..": "cvprobe_n.."}.get(c, c) for c in case["comps"])
+    # symbolic components: L long, XL / CTL / BSL very long (plain, control characters, backslashes - a reply that echoes
+    # the path must still fit a control frame), n.. / ..n names that merely contain dots
+    pstr = ("/" if case["abs"] else "") + "/".join({"L": "x" * 300, "n": "cvprobe_n", "..n": "..cvprobe_n", "n..": "cvprobe_n..",
+                                                    "XL": "y" * 700_000, "CTL": "\x01\x02" * 150_000, "BSL": "a\\\"" * 300_000}.get(c, c) for c in case["comps"])
     env = dict(os.environ, LD_PRELOAD=CFG["shim"], COPIA_SHIM_ROOTS="/", COPIA_SHIM_LOG=os.path.join(d, "log"), RUST_LOG="off")
 
     def serve(reqs, logname):
@@ -136,7 +139,10 @@ def run_case(case):
                 except OSError:
                     pass
     three = replies[1:4]
-    refused = len(three) == 3 and all(isinstance(v, dict) and v.get("Error") == "bad path" for v in three)
+    # refused = Get, Put and Delete all answered with one and the same error reply (whatever its wording), other than the
+    # "not found" a Get of a missing but acceptable path earns
+    errs = [v.get("Error") if isinstance(v, dict) else None for v in three]
+    refused = len(three) == 3 and errs[0] is not None and errs[0] != "not found" and errs[0] == errs[1] == errs[2]
     rec = {"abs": case["abs"], "comps": case["comps"], "path": pstr[:120], "outside": outside[:5], "sentinels_ok": before_parent == after_parent,
            "refused_by_server": refused, "alive": p.returncode == 0 and len(replies) >= 7, "exit": p.returncode,
            "tree_unchanged": True, "probe_equal": True, "replies": [str(v)[:80] for v in three]}
